@@ -633,6 +633,7 @@ type coordStep struct {
 	ReqGen    int32
 	ReqSubs   []string
 	CommitOff int64
+	Reissued  int // a JoinGroup without member id was answered with an id issued before in this history (issue number), 0 = fresh
 	Resp      *coordResp
 	Shadow    *coordShadow
 }
@@ -1034,6 +1035,9 @@ func (w *coordWorld) step(e coordEv, judged bool) (string, []xstate.Violation) {
 		w.nextValSet = false
 		if st.Resp.Panic != "" {
 			w.panics++
+		}
+		if e.K == coordKJoin && st.Resp.Panic == "" && st.Resp.GoErr == "" && st.Resp.Err == 0 && st.Resp.Member != "" {
+			st.Reissued = w.issueNo(st.Resp.Member)
 		}
 		if (e.K == coordKJoin || e.K == coordKRejoin) && st.Resp.Panic == "" && st.Resp.GoErr == "" && st.Resp.Member != "" && w.issueNo(st.Resp.Member) == 0 {
 			w.ids = append(w.ids, st.Resp.Member)
